@@ -31,13 +31,15 @@ Proof. exact files_decode. Qed.
 Print Assumptions C09_files_decode.
 
 (* "the image object stays usable afterwards": in every history, after every successful save the saving
-   image is still there and still denotes the data it had at that save (with fix 29b7b6ce: an image whose
-   own proxy reads the target file is re-pointed to the data just written, its caches dropped).
+   image is still there and still denotes the data it had at that save (with fixes 29b7b6ce and 4923d550: an image
+   whose own proxy reads the target file, or whose own array was mapped from it, is re-pointed to the data just
+   written, its caches dropped).
    Side conditions: names of one file belong to one name family and the class table is idempotent [names_wf];
-   proxy images and files hold a class that fits their names [classes_ok] - true of every initial world and kept
+   proxy images, images built around a map, and files hold a class that fits their names [classes_ok] - true of every initial world and kept
    by every step; uint8 storage of data of both signs is excluded (MGH clips: the FILE does not hold the data). *)
 Theorem C09_usable : forall g ops w,
-  g_fix g = true -> g_viewfix g = true -> g_reshape_ok g = true -> g_repoint g = true -> names_wf g -> classes_ok g w ->
+  g_fix g = true -> g_viewfix g = true -> g_reshape_ok g = true -> g_repoint g = true -> g_maprepoint g = true ->
+  names_wf g -> classes_ok g w ->
   r_all (usable g) g w ops.
 Proof. exact usable_all. Qed.
 Print Assumptions C09_usable.
@@ -65,7 +67,7 @@ Definition g_one (n : Z) (fx : bool) : cfg := platform_cfg n [mkP Nii false] [0%
 (* the same configuration without the re-pointing of fix 29b7b6ce *)
 Definition g_unrep (n : Z) : cfg :=
   mkCfg n platform_page [mkP Nii false] [0%nat] platform_off platform_foot platform_conv true sc_tab
-        platform_nointer false false true false platform_tclass true.
+        platform_nointer false false true false platform_tclass true false.
 
 (* the repair matters (finding S-C09c, fixed by 29b7b6ce).  Without it: load a.nii, set_data_dtype(other
    width), save onto a.nii: the file is right, the image is not - narrower: its reads are refused (OSError);
@@ -148,14 +150,15 @@ Print Assumptions C09_no_crash_refuted.
 (* the same configuration before fix 9bb93cff: unmap_if_target recognises only np.memmap instances with a filename *)
 Definition g_noview (n : Z) : cfg :=
   mkCfg n platform_page [mkP Nii false] [0%nat] platform_off platform_foot platform_conv true sc_tab
-        platform_nointer false false true true platform_tclass false.
+        platform_nointer false false true true platform_tclass false true.
 
 (* a NEW image object of the same class built around an array of a loaded image.  np.asanyarray(img.dataobj) and
    img.get_fdata() (float64 file) are np.memmap instances, np.asarray(img.dataobj) is a base-class VIEW of the map:
    all are copied before the target is truncated, the save onto the mapped file is safe.  The repair matters
    (finding S-C09d, fixed by 9bb93cff): before it the view was not recognised and the save died (data beyond a
-   page) or wrote zeros.  An image whose own array is a map stays at the mercy of its file (S-C09b): after a save
-   onto it with a narrower dtype, reading the image dies *)
+   page) or wrote zeros.  Since 4923d550 the saver then holds the copy that was written (C09_map_saver_refuted
+   shows the behaviour before); an image whose own array is a map of a file that ANOTHER image rewrites stays at
+   the mercy of that file (S-C09b) *)
 Theorem C09_view_of_map_refuted :
   snd (run (g_one 2048 true) (w_one F8) [Load 0 0 true; Wrap 0 1 WAny; Save 1 0; Fdata 1])
     = [ODone; ODone; OSaved 0 (Some 0%nat) F8 0 0; OVal (Some 0%nat)]
@@ -168,11 +171,33 @@ Theorem C09_view_of_map_refuted :
   /\ snd (run (g_noview 24) (w_one F8) [Load 0 0 true; Wrap 0 1 WView; Save 1 0]) = [ODone; ODone; OSaved 0 None F8 0 0]
   /\ affected (g_noview 24) (w_one F8) [Load 0 0 true; Wrap 0 1 WView; Save 1 0] = true
   /\ snd (run (g_one 2048 true) (w_one F8) [Load 0 0 true; Wrap 0 1 WAny; SetDtype 1; Save 1 0; Fdata 1])
-    = [ODone; ODone; ODone; OSaved 0 (Some 0%nat) F4 0 0; OCrash]
-  /\ affected (g_one 2048 true) (w_one F8) [Load 0 0 true; Wrap 0 1 WAny; SetDtype 1; Save 1 0] = true
+    = [ODone; ODone; ODone; OSaved 0 (Some 0%nat) F4 0 0; OVal (Some 0%nat)]
+  /\ affected (g_one 2048 true) (w_one F8) [Load 0 0 true; Wrap 0 1 WAny; SetDtype 1; Save 1 0] = false
   /\ affected (g_one 2048 true) (w_one F8) [Load 0 0 true; Wrap 0 1 WAny; Save 1 0; Fdata 1] = false.
 Proof. vm_compute. repeat split. Qed.
 Print Assumptions C09_view_of_map_refuted.
+
+(* the same configuration before fix 4923d550: the copy made by unmap_if_target is written and dropped *)
+Definition g_nomaprep (n : Z) : cfg :=
+  mkCfg n platform_page [mkP Nii false] [0%nat] platform_off platform_foot platform_conv true sc_tab
+        platform_nointer false false true true platform_tclass true false.
+
+(* the repair matters (finding S-C09e, fixed by 4923d550): an image built around a memory map of a file and saved
+   onto that file with a narrower dtype got a correct file but kept the map as its array - reading it afterwards died
+   (data beyond a page) or gave garbage; and it is S-C09b when ANOTHER image does the rewriting (both cfgs) *)
+Theorem C09_map_saver_refuted :
+  snd (run (g_nomaprep 2048) (w_one F8) [Load 0 0 true; Wrap 0 1 WAny; SetDtype 1; Save 1 0; Fdata 1])
+    = [ODone; ODone; ODone; OSaved 0 (Some 0%nat) F4 0 0; OCrash]
+  /\ snd (run (g_nomaprep 24) (w_one F8) [Load 0 0 true; Wrap 0 1 WFdata; SetDtype 1; Save 1 0; Fdata 1; Save 1 0])
+    = [ODone; ODone; ODone; OSaved 0 (Some 0%nat) F4 0 0; OVal None; OSaved 0 None F4 0 0]
+  /\ affected (g_nomaprep 2048) (w_one F8) [Load 0 0 true; Wrap 0 1 WAny; SetDtype 1; Save 1 0] = true
+  /\ snd (run (g_one 24 true) (w_one F8) [Load 0 0 true; Wrap 0 1 WFdata; SetDtype 1; Save 1 0; Fdata 1; Save 1 0])
+    = [ODone; ODone; ODone; OSaved 0 (Some 0%nat) F4 0 0; OVal (Some 0%nat); OSaved 0 (Some 0%nat) F4 0 0]
+  /\ snd (run (g_one 2048 true) (w_one F8) [Load 0 0 true; Wrap 0 1 WAny; Load 0 0 true; SetDtype 0; Save 0 0; Fdata 1])
+    = [ODone; ODone; ODone; ODone; OSaved 0 (Some 0%nat) F4 0 0; OCrash]
+  /\ affected (g_one 2048 true) (w_one F8) [Load 0 0 true; Wrap 0 1 WAny; Load 0 0 true; SetDtype 0; Save 0 0] = true.
+Proof. vm_compute. repeat split. Qed.
+Print Assumptions C09_map_saver_refuted.
 
 (* the fix matters: without unmap_if_target, save(load(p), p) crashes (data beyond the first
    page) or writes garbage (data inside it) - finding S-C09a, repaired by 0c06baeb *)
@@ -204,7 +229,7 @@ Theorem C09_refusals_and_reshape :
    = (fst (run g w [Load 0 0 true]), [ODone; ORefused EWriter; ORefused EWriter; ORefused ENoSpace]))
   /\
   (let g ok := mkCfg 24 platform_page [mkP Nii false; mkP Mgh false] [0%nat; 1%nat] platform_off platform_foot
-                     platform_conv true sc_tab platform_nointer false true ok true platform_tclass true in
+                     platform_conv true sc_tab platform_nointer false true ok true platform_tclass true true in
    snd (run (g true) w_scaled [Load 0 0 true; Save 0 1]) = [ODone; OSaved 1 (Some 0%nat) F4 0 0]
    /\ snd (run (g false) w_scaled [Load 0 0 true; Save 0 1]) = [ODone; OSaved 1 None F4 0 0]).
 Proof. vm_compute. repeat split. Qed.
